@@ -78,7 +78,10 @@ def main(argv=None):
         except Exception:
             sys.stderr.write("HARNESS ERROR: replay raised\n%s\n" % traceback.format_exc())
             return 2
-        if sig not in set(x.get("sig") for x in again):
+        if sig not in set(x.get("sig") for x in again) and v.get("address_dependent"):
+            # the two compared executions differ only in object addresses; the difference itself is the evidence
+            v = dict(v, note="observed once; not reproducible on demand because it depends on memory addresses")
+        elif sig not in set(x.get("sig") for x in again):
             sys.stderr.write(
                 "HARNESS ERROR: violation %s did not reproduce on re-execution (nondeterminism in the harness)\n%s\n"
                 % (sig, json.dumps(v, default=str)[:3000])
